@@ -140,8 +140,8 @@ def row_npt(rnd):
     return sc
 
 
-def row_gc(rnd, dilute=False):
-    k = 1 if dilute else rnd.choice([1, 1, 2])
+def row_gc(rnd, dilute=False, k=None):
+    k = 1 if dilute else (k or rnd.choice([1, 2]))
     L = gen.rfloat(rnd, 7.0, 10.0, 3)
     cell = gen.gen_cell(rnd, triclinic=0.3, lo=7.0, hi=9.0) if rnd.random() < 0.4 else [[L, 0, 0], [0, L, 0], [0, 0, L]]
     V = abs(np.linalg.det(np.array(cell)))
@@ -189,8 +189,9 @@ def row_gc(rnd, dilute=False):
 
 
 ROWS = [("harmonic", lambda r: row_harmonic(r)), ("harmonic", lambda r: row_harmonic(r)), ("harmonic_hmc", lambda r: row_harmonic(r, True)),
-        ("dipole", row_dipole), ("dipole", row_dipole), ("npt", row_npt), ("npt", row_npt), ("gc", row_gc), ("gc", row_gc),
-        ("gc_dilute", lambda r: row_gc(r, True))]
+        ("dipole", row_dipole), ("dipole", row_dipole), ("npt", row_npt), ("npt", row_npt),
+        ("gc_atom", lambda r: row_gc(r, False, 1)), ("gc_diatomic", lambda r: row_gc(r, False, 2)),
+        ("gc_dilute", lambda r: row_gc(r, True)), ("gc_diatomic", lambda r: row_gc(r, False, 2))]
 
 
 # --------------------------------------------------------------------------------------
